@@ -267,6 +267,9 @@ func upBuildBody(files, recs, badFile, extraField int, salt int) *upBody {
 	return upBuildBodyX(files, recs, badFile, extraField, salt, nil)
 }
 
+// upUnnamedFrom: files with an index >= this are sent without a file name (0 = all named).
+var upUnnamedFrom = 0
+
 func upBuildBodyX(files, recs, badFile, extraField int, salt int, tail []string) *upBody {
 	var buf bytes.Buffer
 	mw := multipart.NewWriter(&buf)
@@ -278,7 +281,11 @@ func upBuildBodyX(files, recs, badFile, extraField int, salt int, tail []string)
 			w.Write([]byte("x"))
 		}
 		b.partHdr = append(b.partHdr, buf.Len())
-		w, _ := mw.CreateFormFile("file", fmt.Sprintf("f%d.txt", f))
+		fname := fmt.Sprintf("f%d.txt", f)
+		if upUnnamedFrom > 0 && f >= upUnnamedFrom {
+			fname = ""
+		}
+		w, _ := mw.CreateFormFile("file", fname)
 		b.content = append(b.content, buf.Len())
 		ends := []int{buf.Len()}
 		fmt.Fprintf(w, "goos: linux\nkey%d: v%d\n", f, salt)
@@ -342,6 +349,15 @@ func upReplayFault(c *upCase) Verdict {
 	var vs []upVariant
 	switch c.Fault.Phase {
 	case "none":
+		if c.Files >= 2 && !c.Scaled {
+			// a named file followed by unnamed ones: server labels are per file
+			vs = append(vs, upVariant{"no-fault-unnamed-after-named", nil, func() (string, io.Reader) {
+				upUnnamedFrom = 2
+				defer func() { upUnnamedFrom = 0 }()
+				b := upBuildBody(c.Files, c.Recs, 0, 0, salt)
+				return b.ctype, bytes.NewReader(b.data)
+			}})
+		}
 		vs = append(vs, upVariant{"no-fault", nil, whole},
 			upVariant{"no-fault-with-commit-field", nil, func() (string, io.Reader) {
 				b := upBuildBodyTail(c.Files, c.Recs, salt, "commit=1")
@@ -529,9 +545,13 @@ func upRunVariant(c *upCase, v upVariant, useLocal bool, salt int, anyStored boo
 		}
 		probes := []probe{{"upload:" + newID, len(c.Visible)}, {"upload:" + newID + " goos:linux", len(c.Visible)}, {"upload:" + newID + " by:user", len(c.Visible)}}
 		for f := 1; f <= c.Files; f++ {
+			named := c.Recs
+			if v.name == "no-fault-unnamed-after-named" && f >= 2 {
+				named = 0 // an unnamed file carries no upload-file label at all
+			}
 			probes = append(probes,
 				probe{fmt.Sprintf("upload-part:%s/%d", newID, f-1), c.Recs},
-				probe{fmt.Sprintf("upload:%s upload-file:f%d.txt", newID, f), c.Recs},
+				probe{fmt.Sprintf("upload:%s upload-file:f%d.txt", newID, f), named},
 				probe{fmt.Sprintf("upload:%s name:F%dR%d", newID, f, c.Recs), 1},
 				probe{fmt.Sprintf("upload:%s key%d:v%d rec:r%d", newID, f, salt, c.Recs), 1},
 				probe{fmt.Sprintf("upload:%s name:F%dR1", newID, f), 1},
